@@ -185,6 +185,7 @@ func authMode(r *sim.Rng, nStates, perState int, cw, cwBlk *sim.CaseWriter) {
 		// blocks of transfers: [validly signed but unauthorized, forged signature, honest, ...] in random order and number
 		for b := 0; b < 3; b++ {
 			n.Enter()
+			n.FSM.Reset() // both presentations of a block start from the committed state (the single-transaction cases above leave theirs applied)
 			h := n.FSM.Height()
 			var txs [][]byte
 			var lits []string
@@ -253,7 +254,8 @@ func authMode(r *sim.Rng, nStates, perState int, cw, cwBlk *sim.CaseWriter) {
 				for i := range txs {
 					if again[string(txs[i])] != executed[string(txs[i])] {
 						sim.Direct(outDirG, map[string]any{"finding": "second-presentation-differs", "kind": "a transaction refused in a block is executed when the same block is presented again (or the other way round)",
-							"index": i, "first": executed[string(txs[i])], "second": again[string(txs[i])], "signer_and_sender": lits[i]})
+							"index": i, "first": executed[string(txs[i])], "second": again[string(txs[i])], "signer_and_sender": lits[i],
+							"failed_first": failedOf(res, txs[i]), "failed_second": failedOf(res2, txs[i]), "block": hexAll(txs)})
 					}
 				}
 			}
@@ -268,3 +270,21 @@ func authMode(r *sim.Rng, nStates, perState int, cw, cwBlk *sim.CaseWriter) {
 }
 
 func bytesEq(a, b []byte) bool { return string(a) == string(b) }
+
+func failedOf(res *lib.ApplyBlockResults, tx []byte) string {
+	h := crypto.HashString(tx)
+	for _, f := range res.Failed {
+		if f.Hash == h && f.Error != nil {
+			return f.Error.Error()
+		}
+	}
+	return ""
+}
+
+func hexAll(txs [][]byte) []string {
+	out := make([]string, len(txs))
+	for i, t := range txs {
+		out[i] = sim.Hex(t)
+	}
+	return out
+}
